@@ -390,6 +390,14 @@ def _collection_source(ctx, module, coefs, step, func):
     return None
 
 
+# functions whose numpy original keeps the dtype of its first argument instead of promoting (confirmed by reading)
+DTYPE_FOLLOWS_FIRST = {
+    "numpoly.array_function.ediff1d.ediff1d": "numpy.ediff1d returns the dtype of `ary`; to_begin / to_end are cast to it "
+                                              "(numpy rejects what is not same_kind-castable, numpoly casts silently - "
+                                              "seen, outside every claim, DESIGN 10.3)",
+}
+
+
 def run_dtype(ctx) -> RuleResult:
     result = RuleResult(
         "R-DTYPE",
@@ -463,6 +471,9 @@ def run_dtype(ctx) -> RuleResult:
                                     derivation=describe_path(path)))
                             continue
                         if len(ops) < 2:
+                            continue
+                        if f"{module.name}.{qual}" in DTYPE_FOLLOWS_FIRST:
+                            result.exception(f"{module.name}.{qual}", DTYPE_FOLLOWS_FIRST[f"{module.name}.{qual}"])
                             continue
                         n += 1
                         have = _operand_ids(ctx, module, dtype)
